@@ -31,7 +31,7 @@ RAGGED_OPS = ['append', 'append_empty', 'iterappend', 'iterappend_empty', 'trunc
               'md_setitem', 'md_pop', 'md_popitem', 'md_del']
 ORIGINS = ['default_open', 'at_creation', 'create_func', 'assigned', 'cycled', 'after_rplus_context',
            'after_rplus_use', 'metadata_mode_then_reassigned', 'assigned_inside_context', 'assigned_live_generator',
-           'rplus_context_beside_live_generator']
+           'rplus_context_beside_live_generator', 'from_copy']
 ARRAY_STATES = ['empty1d', 'empty2d', 'nonempty1d', 'nonempty2d']
 RAGGED_STATES = ['nosub', 'onlyempty', 'nonempty', 'nonempty_atom2']
 
@@ -138,6 +138,10 @@ def build(env, d, case):
         h._verif_keep.callback(g.close)
         with (h.open_array(accessmode='r+') if case['kind'] == 'Array' else h.open_arrays(accessmode='r+')):
             pass
+    elif origin == 'from_copy':
+        # the handle returned by copy() with its documented default access mode (r), also for empty sources
+        h = h.copy(d / 'thecopy')
+        p = d / 'thecopy'
     elif origin == 'after_rplus_use':
         # successful writes in r+, then the mode is assigned back to r
         if case['kind'] == 'Array':
